@@ -4,7 +4,7 @@ from checks import lach_common as lc
 
 
 def run(c):
-    vx = lc.run_vecindex(c, c.pick(["v31_5", "v11_5"], ["v31_6", "v11_6", "v211_6"]), "forkless-cause", ["forkless-cause"])
+    vx = lc.run_vecindex(c, c.pick(["v31_5", "v11_5"], ["v31_6", "v11_6", "v211_5"]), "forkless-cause", ["forkless-cause"])
     c.guard("model_fc_answers", vx["total"].get("fc_answers", 0))
     c.guard("model_states_with_forks", vx["total"].get("states_with_forks", 0))
     # DAGs found by TLC simulation on which a mis-stated forkless cause (fork of B's creator ignored / cheaters counted) changes frames or Atropoi
